@@ -59,6 +59,7 @@ inductive Err where
   | invalidStaticIndex
   | missingRefs (r : Nat)
   | badBaseIndex
+  | prefixOverflow           -- `ParseError::Integer(Overflow)`: non-zero encoded Required Insert Count, capacity 0
 deriving DecidableEq, Repr
 
 inductive Res (α : Type) where
@@ -493,7 +494,11 @@ def prefixRequired (eic totalInserted maxTableSize : Nat) : Res Nat :=
 
 /-- `HeaderPrefix::get`: (required, base) -/
 def prefixGet (p : Prefix) (totalInserted maxTableSize : Nat) : Res (Nat × Nat) :=
-  if maxTableSize = 0 then .ok (0, 0)
+  if maxTableSize = 0 then
+    -- a table of capacity 0 never holds an entry: the only Required Insert Count is 0, the sign bit must be 0
+    if p.eic ≠ 0 then .err .prefixOverflow
+    else if p.sign then .err .badBaseIndex
+    else .ok (0, 0)
   else (prefixRequired p.eic totalInserted maxTableSize).bind fun required =>
     if required = 0 then .ok (0, 0)
     else if ¬ p.sign then .ok (required, required + p.delta)
